@@ -42,9 +42,9 @@ pub fn c13_case() -> impl Strategy<Value = Case> {
         prop_oneof![6 => Just(None), 1 => (1u8..3).prop_map(Some)],
         prop_oneof![6 => Just(LS::Ok), 1 => Just(LS::Err), 1 => (1u8..=3).prop_map(LS::PendingUntil)],
         schedule(300),
-        prop::collection::vec(0u8..3, 0..3),
+        (prop::collection::vec(0u8..3, 0..3), prop::bool::weighted(0.35)),
     )
-        .prop_map(|((o0, o1, c0, c1), side, bend, peer, read, write, flush_err_at, shutdown, schedule, extra_parks)| {
+        .prop_map(|((o0, o1, c0, c1), side, bend, peer, read, write, flush_err_at, shutdown, schedule, (extra_parks, plain))| {
             let mut peer = peer;
             // the peer may start reading late (credit starvation for the bridge)
             for (k, p) in extra_parks.iter().enumerate() {
@@ -59,7 +59,7 @@ pub fn c13_case() -> impl Strategy<Value = Case> {
                 opts: [o0, o1],
                 cap: [c0, c1],
                 streams: vec![StreamSpec { side, port: 22, pad: vec![], delay: 0, park: None, ends }],
-                bridges: vec![BridgeSpec { stream: 0, end: bend, read, write, flush_err_at, shutdown }],
+                bridges: vec![BridgeSpec { stream: 0, end: bend, read, write, flush_err_at, shutdown, plain }],
                 events,
                 schedule,
                 ..Case::default()
@@ -154,6 +154,20 @@ pub fn run_c13(case: &Case) -> Outcome {
             );
         }
     }
+    // liveness of peer -> local: at quiescence every byte of the peer that reached the bridged endpoint has been written to the
+    // local side, unless the local side refuses data (pending / failed write), the bridge ended, or the flow was torn down
+    {
+        let arrived: usize = run.events.iter().map(|e| if let Ev::Recv { side, msg: WMsg::Frame(RFrame::Push { id: p, data }) } = &e.ev { if *side == bside && *p == id { data.len() } else { 0 } } else { 0 }).sum();
+        let local_write_may_block = b.write.iter().any(|x| matches!(x, LW::PendingUntil(_) | LW::Err));
+        let reset_any = run.events.iter().any(|e| matches!(&e.ev, Ev::Recv { msg: WMsg::Frame(RFrame::Reset { id: p }), .. } | Ev::Sent { msg: WMsg::Frame(RFrame::Reset { id: p }), .. } if *p == id));
+        if a.healthy && done.is_none() && local_err.is_none() && !local_write_may_block && !reset_any && !peer_let_go && me.total_read() < arrived {
+            viol!(
+                "c13-peer-data-stuck-in-bridge",
+                "{arrived} bytes of the peer reached the bridged endpoint but only {} were written to the local side, which accepts data; the bridge future is pending and nothing will flush the rest",
+                me.total_read()
+            );
+        }
+    }
     // (5) both directions ended => the future returns the two true byte counts
     let both_ended = local_eof && peer.shutdown_at.is_some() && local_shutdown && local_err.is_none() && !peer_let_go && me.total_read() == peer.total_written();
     if both_ended {
@@ -200,7 +214,7 @@ pub fn run_c13(case: &Case) -> Outcome {
 }
 
 pub fn c13(ctx: &Ctx, rep: &mut Report) {
-    rep.rule = "MuxStream::into_copy_bidirectional_with_buf over a scripted local AsyncBufRead+AsyncWrite: read half = chunks (1..3000 bytes), Pending until a harness event, Pending for ever, EOF or error at any position; write half = partial accepts, Pending points, error; flush/shutdown errors or delays; \
+    rep.rule = "MuxStream::into_copy_bidirectional_with_buf (and, in a third of the cases, the default into_copy_bidirectional) over a scripted local AsyncBufRead+AsyncWrite: read half = chunks (1..3000 bytes), Pending until a harness event, Pending for ever, EOF or error at any position; write half = partial accepts, Pending points, error; flush/shutdown errors or delays; \
                 the peer end is a real application (data, shutdown, drop, late reader = credit starvation) on a second real endpoint, with generated options, link back-pressure and schedule. Oracle: content function in both directions (exactly the bytes, in order), C03 window rule for the bridge's Push frames, Finish on local EOF, local shutdown after the peer's Finish, \
                 true byte counts on completion, and after any failed local operation the future must be complete at quiescence with an error. Non-trivial = the script has a Pending point and a partial write, or an error, or a peer abort. Distinct = distinct case value."
         .into();
